@@ -208,18 +208,35 @@ def check_multi(chk, sseed):
     chk.traces += 1
 
 
-def check_one(chk, sseed, big=False):
+def check_one(chk, sseed, big=False, directed=False):
+    """directed: a Sources index read through mmap whose stanzas end with their Package line, exactly one blank line between
+    them, and a source-name filter that rejects some of them and keeps others (corpus for seed agent-C09-5)"""
     rng = random.Random(sseed)
     kind = rng.choice(["packages", "packages", "sources"])
     odd = kind == "sources" and rng.random() < 0.2   # malformed stream: entries outside the grammar, real vs model only
+    if directed:
+        kind, odd, big = "sources", False, True
     stanzas = gen_packages(rng) if kind == "packages" else gen_sources(rng, odd)
     text = render(rng, stanzas)
+    if directed:
+        while len({v for st in stanzas for k, v in st if k == "Package"}) < 2:
+            stanzas = gen_sources(rng, False)
+        for st in stanzas:
+            i = next(k for k, f in enumerate(st) if f[0] == "Package")
+            st.append(st.pop(i))
+        text = "\n\n".join("\n".join(f"{k}:{v}" if v.startswith("\n") else f"{k}: {v}" for k, v in st) for st in stanzas) + "\n"
     if big and stanzas:
         # pad with a huge multi-line field so that the file exceeds 1 MiB and is read through mmap
         pad = "Description: big\n" + ("".join(" " + "x" * 200 + "\n" for _ in range(5600)))
         idx = text.find("\n")
         text = text[:idx + 1] + pad + text[idx + 1:]
     flt = gen_filter(rng)
+    if directed:
+        present = sorted({v for st in stanzas for k, v in st if k == "Package"})
+        some = rng.sample(present, rng.randint(1, len(present) - 1))
+        flt = {"include_source_name": [], "exclude_source_name": [], "include_binary_packages": [], "exclude_binary_packages": []}
+        flt[rng.choice(["include_source_name", "exclude_source_name"])] = some
+        chk.count("directed_mmap_sources_with_filter")
     ignored = rng.sample(["pool/main/p", "pool/main/s/srcA", "pool/main/l/lib-a/lib-a_3_amd64.deb", "pool/mai"], rng.randint(0, 2))
     top = fsutil.workdir("idx")
     rel = Path("dists/s/main/binary-amd64/Packages") if kind == "packages" else Path("dists/s/main/source/Sources")
@@ -233,7 +250,7 @@ def check_one(chk, sseed, big=False):
     pf.include_binary_packages.update(flt["include_binary_packages"])
     pf.exclude_binary_packages.update(flt["exclude_binary_packages"])
     cls = PackagesParser if kind == "packages" else SourcesParser
-    replay = {"kind": kind, "text": text if len(text) < 6000 else text[:3000] + "...", "filter": flt, "ignored": ignored, "ext": ext, "seed": sseed}
+    replay = {"kind": kind, "text": text if len(text) < 6000 else text[:3000] + "...", "filter": flt, "ignored": ignored, "ext": ext, "seed": sseed, "big": big, "directed": directed}
     try:
         files = cls(Path(top), {rel}, set(ignored), pf).parse()
         real = sorted((parts(f.path), f.size, bool(f.ignore_errors)) for f in files)
@@ -292,6 +309,8 @@ def run(chk, tier, rng):
         check_multi(chk, f"C09m-{chk.seed}-{i}")
     for i in range(n):
         check_one(chk, f"C09-{chk.seed}-{i}", big=(i % 4 == 3))   # every fourth index is above the mmap threshold
+        if i < (4 if tier == "quick" else 60):
+            check_one(chk, f"C09d-{chk.seed}-{i}", directed=True)
     chk.assumptions += ["canonical field capitalisation and LF line ends (property quantifier)", "decompression, mmap and readline are exercised, not modelled"]
 
 
@@ -302,7 +321,7 @@ def replay(rep):
     if rep["replay"].get("multi"):
         check_multi(chk, rep["replay"]["seed"])
     else:
-        check_one(chk, rep["replay"]["seed"])
+        check_one(chk, rep["replay"]["seed"], big=rep["replay"].get("big", False), directed=rep["replay"].get("directed", False))
     for sig, path, msg, _ in chk.violations:
         print(f"REPLAY VIOLATION {sig}: {msg}")
     return 1 if chk.violations else 0
